@@ -544,8 +544,11 @@ ASSUME = ["the host g++ (-O0 -std=gnu++17, x86-64 LP64) is the reference semanti
           "leak detection is off in the worker (OCCA's error paths leak; not part of this property)",
           "libocca built from the repo working tree with clang ASan+UBSan (asan variant)"]
 
-QUICK = (60, 10)        # Hypothesis examples x programs per example
-THOROUGH = (3000, 10)
+# One Hypothesis example has an entropy budget of 8 KiB = 4096 one-byte decisions; a program takes ~800 (max seen
+# ~3400), so an example generates 2 programs.  The host compiler is amortised over TU_GROUP programs.
+QUICK = (300, 2)        # Hypothesis examples x programs per example
+THOROUGH = (15000, 2)
+TU_GROUP = 12
 NWORKERS = 8
 
 
@@ -646,9 +649,12 @@ def run(prop, tier, replay, t0):
                 return        # Hypothesis' first, all-minimal example: copies of one program; not counted
             batches.append(descs)
         campaign()
-        if len(batches) < nbatches:
+        generated_examples = len(batches)
+        flat = [d for b in batches for d in b]
+        batches = [flat[i:i + TU_GROUP] for i in range(0, len(flat), TU_GROUP)]
+        if generated_examples < nbatches:
             out.notes.append("only %d of %d batches were generated (Hypothesis discarded the others: entropy budget of one "
-                             "example exceeded)" % (len(batches), nbatches))
+                             "example exceeded)" % (generated_examples, nbatches))
         if not batches:
             raise SystemExit("HARNESS-ERROR: no case was generated; not a property verdict")
 
@@ -746,7 +752,7 @@ def run(prop, tier, replay, t0):
             out.violations.append((path, "[%s] %s  (%d failing programs of this kind)  | program: %s" %
                                    (v["kind"], v["what"][:400], len(fl), it["src"][-500:].replace("\n", "\\n"))))
         out.extra["engine"] = ("Hypothesis %s st.randoms-driven AST generator, %d examples x %d programs; %d w_print workers; "
-                               "g++ as reference semantics" % (__import__("hypothesis").__version__, len(batches), bsize, NWORKERS))
+                               "g++ as reference semantics, %d programs per TU" % (__import__("hypothesis").__version__, generated_examples, bsize, NWORKERS, TU_GROUP))
         out.extra["failing_programs"] = len(fails)
         return vlib.finish(prop, tier, "exploration", out, RULE, t0, ASSUME)
     finally:
